@@ -23,6 +23,8 @@ import (
 	commonpb "go.temporal.io/api/common/v1"
 	"go.temporal.io/api/enums/v1"
 	historypb "go.temporal.io/api/history/v1"
+	namespacepb "go.temporal.io/api/namespace/v1"
+	"go.temporal.io/api/workflowservice/v1"
 	"go.temporal.io/server/api/adminservice/v1"
 	"go.temporal.io/server/client/history"
 	"go.temporal.io/server/common/persistence/serialization"
@@ -145,7 +147,8 @@ type vplFake struct {
 	calls []vplCall
 	srv   *grpc.Server
 	addr  string
-	saOwn string // this cluster's own name of the mapped search attribute ("" = do not put search attributes into responses)
+	list  []string // names this cluster puts into its next ListNamespaces response (nil: an empty response)
+	saOwn string   // this cluster's own name of the mapped search attribute ("" = do not put search attributes into responses)
 }
 
 var vplSerializer = serialization.NewSerializer()
@@ -250,6 +253,13 @@ func vplStartFake(t *testing.T) *vplFake {
 		own := f.saOwn
 		f.mu.Unlock()
 		out := vplNewMsg(m.Output())
+		if r, ok := out.(*workflowservice.ListNamespacesResponse); ok {
+			f.mu.Lock()
+			for _, n := range f.list {
+				r.Namespaces = append(r.Namespaces, &workflowservice.DescribeNamespaceResponse{NamespaceInfo: &namespacepb.NamespaceInfo{Name: n}})
+			}
+			f.mu.Unlock()
+		}
 		if r, ok := out.(*adminservice.GetWorkflowExecutionRawHistoryV2Response); ok && own != "" {
 			r.HistoryBatches = []*commonpb.DataBlob{vplSaBlob([]string{own, "sa-same", "sa-free"})}
 		}
@@ -269,6 +279,7 @@ type vplCase struct {
 	Policy    string `json:"policy"`
 	Mapping   bool   `json:"mapping"`
 	Bypass    bool   `json:"bypass"`
+	Intra     bool   `json:"intra"` // the caller sends the intra-proxy marker header
 	Name      string `json:"name"`
 	M         struct {
 		Service string `json:"service"`
@@ -300,7 +311,23 @@ func vplFreeAddr(t *testing.T) string {
 // vplSA: the connection also gets a search-attribute mapping (local sa-l <-> remote sa-r, and an identity entry)
 var vplSA bool
 
+// vplSetup retries with fresh ports when another process took one between choosing and binding it
 func vplSetup(t *testing.T, policy string, mapping bool, transport string) *vplEnv {
+	var err error
+	for attempt := 0; attempt < 8; attempt++ {
+		var e *vplEnv
+		if e, err = vplSetupOnce(t, policy, mapping, transport); err == nil {
+			return e
+		}
+		if !strings.Contains(err.Error(), "address already in use") {
+			break
+		}
+	}
+	t.Fatalf("NewClusterConnection: %v", err)
+	return nil
+}
+
+func vplSetupOnce(t *testing.T, policy string, mapping bool, transport string) (*vplEnv, error) {
 	e := &vplEnv{local: vplStartFake(t), remote: vplStartFake(t), inAddr: vplFreeAddr(t), outAddr: vplFreeAddr(t)}
 	if vplSA {
 		e.local.saOwn, e.remote.saOwn = "sa-l", "sa-r"
@@ -324,6 +351,8 @@ func vplSetup(t *testing.T, policy string, mapping bool, transport string) *vplE
 			Mappings: []config.SAMapping{{LocalName: "sa-l", RemoteName: "sa-r"}, {LocalName: "sa-same", RemoteName: "sa-same"}}}}}
 	}
 	switch policy {
+	case "methods2":
+		cfg.ACLPolicy = &config.ACLPolicy{AllowedMethods: config.AllowedMethods{AdminService: []string{"DescribeCluster"}}}
 	case "methods":
 		cfg.ACLPolicy = &config.ACLPolicy{AllowedMethods: config.AllowedMethods{AdminService: []string{"DescribeCluster", "GetNamespace", "StreamWorkflowReplicationMessages"}}}
 	case "namespaces":
@@ -347,20 +376,29 @@ func vplSetup(t *testing.T, policy string, mapping bool, transport string) *vplE
 		}
 		cc, err := NewClusterConnection(ctx, cfg, vrtLoggers())
 		if err != nil {
-			t.Fatalf("NewClusterConnection (mux server): %v", err)
+			cancel()
+			e.local.srv.Stop()
+			e.remote.srv.Stop()
+			return nil, err
 		}
 		e.cc = cc
 		cc.Start()
 		peer, err := NewClusterConnection(ctx, peerCfg, vrtLoggers())
 		if err != nil {
-			t.Fatalf("NewClusterConnection (mux client): %v", err)
+			cancel()
+			e.local.srv.Stop()
+			e.remote.srv.Stop()
+			return nil, err
 		}
 		e.peer = peer
 		peer.Start()
 	} else {
 		cc, err := NewClusterConnection(ctx, cfg, vrtLoggers())
 		if err != nil {
-			t.Fatalf("NewClusterConnection: %v", err)
+			cancel()
+			e.local.srv.Stop()
+			e.remote.srv.Stop()
+			return nil, err
 		}
 		e.cc = cc
 		cc.Start()
@@ -373,7 +411,7 @@ func vplSetup(t *testing.T, policy string, mapping bool, transport string) *vplE
 		return c
 	}
 	e.inConn, e.outConn = dial(e.inAddr), dial(e.outAddr)
-	return e
+	return e, nil
 }
 
 func (e *vplEnv) close() {
@@ -405,6 +443,9 @@ func vplRun(e *vplEnv, c vplCase) map[string]interface{} {
 	md := metadata.MD{}
 	if c.Bypass {
 		md.Set(common.RequestTranslationHeaderName, "false")
+	}
+	if c.Intra {
+		md.Set(common.IntraProxyHeaderKey, common.IntraProxyHeaderValue)
 	}
 	var err error
 	if c.M.Stream {
@@ -669,6 +710,80 @@ func TestVerifPipelineSA(t *testing.T) {
 			}
 		}
 		cancel()
+		_ = enc.Encode(rec)
+	}
+}
+
+// ListNamespaces through the ASSEMBLED inbound server under a namespace allow-list (C16): one record per (page shape, mapping,
+// transport): the names the remote caller gets back.
+type vplListCase struct {
+	ID        int      `json:"id"`
+	Shape     []string `json:"shape"`
+	Mapping   bool     `json:"mapping"`
+	Transport string   `json:"transport"`
+}
+
+func TestVerifPipelineList(t *testing.T) {
+	in := os.Getenv("VERIF_IN")
+	if in == "" {
+		t.Skip("VERIF_IN not set")
+	}
+	raw, err := os.ReadFile(in)
+	if err != nil {
+		t.Fatal(err)
+	}
+	outf, err := os.Create(os.Getenv("VERIF_OUT"))
+	if err != nil {
+		t.Fatal(err)
+	}
+	defer outf.Close()
+	enc := json.NewEncoder(outf)
+	envs := map[string]*vplEnv{}
+	defer func() {
+		for _, e := range envs {
+			e.close()
+		}
+	}()
+	for _, line := range strings.Split(string(raw), "\n") {
+		if strings.TrimSpace(line) == "" {
+			continue
+		}
+		var c vplListCase
+		if err := json.Unmarshal([]byte(line), &c); err != nil {
+			t.Fatalf("bad case: %v", err)
+		}
+		key := fmt.Sprint(c.Mapping, c.Transport)
+		e := envs[key]
+		if e == nil {
+			e = vplSetup(t, "namespaces", c.Mapping, c.Transport)
+			envs[key] = e
+			time.Sleep(300 * time.Millisecond)
+		}
+		page := []string{}
+		for _, x := range c.Shape {
+			if x == "a" {
+				page = append(page, "ns-allowed")
+			} else {
+				page = append(page, "ns-forbidden")
+			}
+		}
+		e.local.mu.Lock()
+		e.local.list = page
+		e.local.mu.Unlock()
+		rec := map[string]interface{}{"ev": "ListCase", "case": c, "ran": false, "names": []string{}, "err": ""}
+		ctx, cancel := context.WithTimeout(context.Background(), 5*time.Second)
+		resp, err := workflowservice.NewWorkflowServiceClient(e.inConn).ListNamespaces(ctx, &workflowservice.ListNamespacesRequest{})
+		cancel()
+		if err != nil {
+			rec["err"] = err.Error()
+		} else {
+			names := []string{}
+			for _, n := range resp.GetNamespaces() {
+				names = append(names, n.GetNamespaceInfo().GetName())
+			}
+			rec["ran"], rec["names"] = true, names
+		}
+		e.local.take()
 		_ = enc.Encode(rec)
 	}
 }
